@@ -1,12 +1,19 @@
 package main
 
 import (
+	"context"
 	"fmt"
+	"os"
+	"os/exec"
+	"path/filepath"
 	"strconv"
 	"strings"
+	"sync"
+	"time"
 
 	"github.com/sarchlab/akita/v4/mem/mem"
 	"github.com/sarchlab/akita/v4/sim"
+	"github.com/sarchlab/mgpusim/v4/amd/driver"
 	"github.com/sarchlab/mgpusim/v4/amd/insts"
 	"github.com/sarchlab/mgpusim/v4/amd/kernels"
 	"github.com/sarchlab/mgpusim/v4/amd/protocol"
@@ -869,5 +876,330 @@ func runC14(r *Run, rng *Rng, replay string) {
 	}
 	for i := 0; i < nBig; i++ {
 		c14RunScenario(r, rng, "big")
+	}
+	c14Programs(r, rng)
+}
+
+// ---- whole programs on the real platforms (child process) -----------------------------------
+
+type c14Asm struct{ b []byte }
+
+func (a *c14Asm) e(format string, op uint32, f map[string]uint32) {
+	a.b = append(a.b, encodeDesc(desc{format: format, op: op, f: f})...)
+}
+func (a *c14Asm) lit(format string, op uint32, f map[string]uint32, l uint32) {
+	a.b = append(a.b, encodeDesc(desc{format: format, op: op, f: f, literal: l, hasLit: true})...)
+}
+
+const (
+	c14WaitLgkm = 0x007f // s_waitcnt lgkmcnt(0)
+	c14WaitVm   = 0x0f70 // s_waitcnt vmcnt(0)
+)
+
+// c14Program assembles one of the small kernels. Registers: s[0:1] kernarg pointer, s2
+// work-group id, v0 local id; afterwards v[2:3] = &out[gid], v1 = 4*gid.
+func c14Program(name string, wg int, p1, p2 int) []byte {
+	a := &c14Asm{}
+	a.e("smem", 2, map[string]uint32{"imm": 1, "sdata": 4, "sbase": 0, "offset": 0}) // s_load_dwordx4 s[4:7], s[0:1], 0
+	a.e("sopp", 12, map[string]uint32{"simm16": c14WaitLgkm})
+	a.lit("sop2", 36, map[string]uint32{"sdst": 3, "ssrc0": 2, "ssrc1": 255}, uint32(wg)) // s_mul_i32 s3, s2, wg
+	a.e("vop2", 25, map[string]uint32{"vdst": 1, "src0": 3, "vsrc1": 0})                  // v_add_u32 v1, vcc, s3, v0
+	a.e("vop2", 18, map[string]uint32{"vdst": 1, "src0": 130, "vsrc1": 1})                // v_lshlrev_b32 v1, 2, v1
+	a.e("vop1", 1, map[string]uint32{"vdst": 3, "src0": 5})                               // v_mov_b32 v3, s5
+	a.e("vop2", 25, map[string]uint32{"vdst": 2, "src0": 4, "vsrc1": 1})                  // v_add_u32 v2, vcc, s4, v1
+	a.e("vop2", 28, map[string]uint32{"vdst": 3, "src0": 128, "vsrc1": 3})                // v_addc_u32 v3, vcc, 0, v3, vcc
+	store := func(v uint32) {
+		a.e("flat", 28, map[string]uint32{"addr": 2, "data": v})
+		a.e("sopp", 12, map[string]uint32{"simm16": c14WaitVm})
+	}
+	switch name {
+	case "lds": // p1 rounds of: write LDS[l], barrier, read LDS[wg-1-l], barrier
+		a.lit("vop2", 25, map[string]uint32{"vdst": 4, "src0": 255, "vsrc1": 0}, 100) // v4 = l + 100
+		a.e("vop2", 18, map[string]uint32{"vdst": 5, "src0": 130, "vsrc1": 0})        // v5 = 4*l
+		a.lit("vop2", 26, map[string]uint32{"vdst": 6, "src0": 255, "vsrc1": 0}, uint32(wg-1))
+		a.e("vop2", 18, map[string]uint32{"vdst": 6, "src0": 130, "vsrc1": 6}) // v6 = 4*(wg-1-l)
+		for r := 0; r < p1; r++ {
+			a.e("ds", 13, map[string]uint32{"addr": 5, "data0": 4})
+			a.e("sopp", 12, map[string]uint32{"simm16": c14WaitLgkm})
+			a.e("sopp", 10, nil)
+			a.e("ds", 54, map[string]uint32{"vdst": 7, "addr": 6})
+			a.e("sopp", 12, map[string]uint32{"simm16": c14WaitLgkm})
+			a.e("sopp", 10, nil)
+			a.e("vop2", 25, map[string]uint32{"vdst": 4, "src0": 129, "vsrc1": 7}) // v4 = v7 + 1
+		}
+		store(4)
+	case "exit": // the first wavefront (p1=0) or all the others (p1=1) leave before the barrier;
+		// p2 = s_nops in front of the barrier (>=0) or in front of the early s_endpgm (<0)
+		nb, ne := 0, 0
+		if p2 >= 0 {
+			nb = p2
+		} else {
+			ne = -p2
+		}
+		a.e("vop1", 2, map[string]uint32{"vdst": 8, "src0": 256}) // v_readfirstlane_b32 s8, v0
+		a.e("sopc", 10, map[string]uint32{"ssrc0": 8, "ssrc1": 192}) // s_cmp_lt_u32 s8, 64
+		br := uint32(5)
+		if p1 != 0 {
+			br = 4
+		}
+		a.e("sopp", br, map[string]uint32{"simm16": uint32(nb + 5)})
+		for k := 0; k < nb; k++ {
+			a.e("sopp", 0, nil)
+		}
+		a.e("sopp", 10, nil)
+		a.e("vop1", 1, map[string]uint32{"vdst": 4, "src0": 135}) // v_mov_b32 v4, 7
+		store(4)
+		for k := 0; k < ne; k++ {
+			a.e("sopp", 0, nil)
+		}
+	case "load": // out[g] = in[g] + 5
+		a.e("vop1", 1, map[string]uint32{"vdst": 9, "src0": 7})
+		a.e("vop2", 25, map[string]uint32{"vdst": 8, "src0": 6, "vsrc1": 1})
+		a.e("vop2", 28, map[string]uint32{"vdst": 9, "src0": 128, "vsrc1": 9})
+		a.e("flat", 20, map[string]uint32{"vdst": 4, "addr": 8})
+		a.e("sopp", 12, map[string]uint32{"simm16": c14WaitVm})
+		a.e("vop2", 25, map[string]uint32{"vdst": 4, "src0": 133, "vsrc1": 4})
+		store(4)
+	}
+	a.e("sopp", 1, nil)
+	return a.b
+}
+
+// c14Expected is the reference: what the program must leave in out[].
+func c14Expected(name string, wg, nwg, p1, p2 int) []uint32 {
+	out := make([]uint32, wg*nwg)
+	for g := 0; g < nwg; g++ {
+		for l := 0; l < wg; l++ {
+			var v uint32
+			switch name {
+			case "lds":
+				// round r: every lane holds x_r(l); x_{r+1}(l) = x_r(wg-1-l) + 1
+				x := uint32(l + 100)
+				for r := 0; r < p1; r++ {
+					if r%2 == 0 {
+						x = uint32(wg-1-l+100) + uint32(r) + 1
+					} else {
+						x = uint32(l+100) + uint32(r) + 1
+					}
+				}
+				v = x
+			case "exit":
+				early := l < 64
+				if p1 != 0 {
+					early = !early
+				}
+				if !early {
+					v = 7
+				}
+			case "load":
+				v = uint32(2*(g*wg+l)+1) + 5
+			}
+			out[g*wg+l] = v
+		}
+	}
+	return out
+}
+
+type c14KArgs struct {
+	Out driver.Ptr
+	In  driver.Ptr
+}
+
+func init() { childFuncs["c14prog"] = c14ProgChild }
+
+// c14ProgChild: child c14prog <emu|timing> <name> <wg> <nwg> <p1> <p2> <dir>; prints RESULT <values>
+func c14ProgChild(args []string) {
+	mode, name := args[0], args[1]
+	n := make([]int, 4)
+	for i := range n {
+		n[i], _ = strconv.Atoi(args[2+i])
+	}
+	wg, nwg, p1, p2 := n[0], n[1], n[2], n[3]
+	dir := args[6]
+	var p *platform
+	if mode == "emu" {
+		p = newEmuPlatform(dir, 1, 12)
+	} else {
+		p = newTimingPlatform(dir, 1, "r9nano", false)
+	}
+	code := c14Program(name, wg, p1, p2)
+	co := &insts.KernelCodeObject{KernelCodeObjectMeta: &insts.KernelCodeObjectMeta{}, Data: code, Version: insts.CodeObjectV3}
+	co.KernargSegmentByteSize = 16
+	co.EnableSgprKernargSegmentPtr = true
+	co.ComputePgmRsrc2 = 1 << 7 // work-group id x in an SGPR, work-item id x in v0
+	co.WFSgprCount = 16
+	co.WIVgprCount = 12
+	if name == "lds" {
+		co.GroupSegmentByteSize = uint32(4 * wg)
+	}
+	total := wg * nwg
+	ctx := p.drv.Init()
+	out := p.drv.AllocateMemory(ctx, uint64(4*total))
+	in := p.drv.AllocateMemory(ctx, uint64(4*total))
+	inData := make([]uint32, total)
+	for i := range inData {
+		inData[i] = uint32(2*i + 1)
+	}
+	p.drv.MemCopyH2D(ctx, in, inData)
+	p.drv.MemCopyH2D(ctx, out, make([]uint32, total))
+	ka := c14KArgs{Out: out, In: in}
+	p.drv.LaunchKernel(ctx, co, [3]uint32{uint32(total), 1, 1}, [3]uint16{uint16(wg), 1, 1}, &ka)
+	res := make([]uint32, total)
+	p.drv.MemCopyD2H(ctx, res, out)
+	parts := make([]string, total)
+	for i, v := range res {
+		parts[i] = strconv.FormatUint(uint64(v), 10)
+	}
+	fmt.Println("RESULT " + strings.Join(parts, ","))
+	os.Exit(0)
+}
+
+type c14ProgCase struct {
+	name            string
+	wg, nwg, p1, p2 int
+}
+
+func (c c14ProgCase) String() string {
+	return fmt.Sprintf("%s wg=%d nwg=%d p1=%d p2=%d", c.name, c.wg, c.nwg, c.p1, c.p2)
+}
+
+// c14RunChild runs one program on one platform; status = ok | panic | hang | fail
+func c14RunChild(r *Run, mode string, c c14ProgCase, limit time.Duration) (status string, vals []uint32, tail string) {
+	dir := filepath.Join(r.OutDir, "c14prog")
+	os.MkdirAll(dir, 0o755)
+	for attempt := 0; attempt < 2; attempt++ {
+		ctx, cancel := context.WithTimeout(context.Background(), limit)
+		cmd := exec.CommandContext(ctx, os.Args[0], "child", "c14prog", mode, c.name, strconv.Itoa(c.wg),
+			strconv.Itoa(c.nwg), strconv.Itoa(c.p1), strconv.Itoa(c.p2), dir)
+		cmd.Env = append(os.Environ(), "GOMEMLIMIT=4GiB")
+		outb, err := cmd.CombinedOutput()
+		timedOut := ctx.Err() == context.DeadlineExceeded
+		cancel()
+		lines := strings.Split(strings.TrimSpace(string(outb)), "\n")
+		tail = lines[len(lines)-1]
+		if len(tail) > 200 {
+			tail = tail[:200]
+		}
+		for _, l := range lines {
+			if strings.HasPrefix(l, "RESULT ") {
+				for _, f := range strings.Split(strings.TrimPrefix(l, "RESULT "), ",") {
+					v, _ := strconv.ParseUint(f, 10, 32)
+					vals = append(vals, uint32(v))
+				}
+				return "ok", vals, ""
+			}
+		}
+		if timedOut {
+			status = "hang"
+			continue // once more: Driver.DrainCommandQueue has a rare lost wake-up (C12)
+		}
+		if err != nil {
+			if strings.Contains(string(outb), "not all wavefronts at barrier") {
+				return "panic", nil, "not all wavefronts at barrier"
+			}
+			return "fail", nil, tail
+		}
+		return "fail", nil, tail
+	}
+	return status, nil, tail
+}
+
+func c14Programs(r *Run, rng *Rng) {
+	cases := []c14ProgCase{
+		{"exit", 128, 1, 0, 0},  // the reproduced defect: wavefront 0 ends before wavefront 1 arrives
+		{"exit", 128, 2, 0, -6}, // ... ends after the other arrived
+		{"exit", 256, 1, 1, 3},  // three wavefronts leave, one waits alone
+		{"lds", 64, 1, 1, 0},
+		{"lds", 256, 2, 2, 0},
+		{"lds", 1024, 1, 1, 0}, // 16 wavefronts
+		{"load", 128, 3, 0, 0},
+	}
+	if r.Tier == "thorough" {
+		for _, wg := range []int{64, 128, 192, 320, 512, 1024} {
+			cases = append(cases, c14ProgCase{"lds", wg, rng.Range(1, 3), rng.Range(1, 3), 0},
+				c14ProgCase{"exit", wg, rng.Range(1, 3), rng.Intn(2), rng.Range(-8, 8)},
+				c14ProgCase{"load", wg, rng.Range(1, 4), 0, 0})
+		}
+		cases = append(cases, c14ProgCase{"lds", 1024, 130, 1, 0}) // two 16-wavefront groups per compute unit
+	}
+	type res struct {
+		status [2]string
+		vals   [2][]uint32
+		tail   [2]string
+	}
+	results := make([]res, len(cases))
+	var wg sync.WaitGroup
+	sem := make(chan struct{}, 6)
+	for i := range cases {
+		for m, mode := range []string{"emu", "timing"} {
+			wg.Add(1)
+			go func(i, m int, mode string) {
+				defer wg.Done()
+				sem <- struct{}{}
+				defer func() { <-sem }()
+				limit := 90 * time.Second
+				if cases[i].nwg > 8 {
+					limit = 600 * time.Second
+				}
+				st, v, tail := c14RunChild(r, mode, cases[i], limit)
+				results[i].status[m], results[i].vals[m], results[i].tail[m] = st, v, tail
+			}(i, m, mode)
+		}
+	}
+	wg.Wait()
+	for i, c := range cases {
+		want := c14Expected(c.name, c.wg, c.nwg, c.p1, c.p2)
+		for m, mode := range []string{"emu", "timing"} {
+			r.Checked("prog." + mode)
+			r.Count("prog:" + c.name)
+			st := results[i].status[m]
+			cs := "c14 prog " + mode + " " + c.String()
+			sig := "C14.prog." + mode + "." + c.name
+			switch st {
+			case "ok":
+				got := results[i].vals[m]
+				bad := -1
+				for k := range want {
+					if k >= len(got) || got[k] != want[k] {
+						bad = k
+						break
+					}
+				}
+				if bad >= 0 {
+					g := uint32(0)
+					if bad < len(got) {
+						g = got[bad]
+					}
+					r.Failf(sig+".value", cs, "out[%d] = %d, reference %d (work-item %d of group %d)", bad, g, want[bad], bad%c.wg, bad/c.wg)
+				}
+			case "hang":
+				r.Failf(sig+".hang", cs, "the platform does not finish the kernel (wall-clock limit, twice): %s", results[i].tail[m])
+			case "panic":
+				r.Failf(sig+".panic", cs, "the platform panicked: %s", results[i].tail[m])
+			default:
+				r.Failf(sig+".fail", cs, "child failed: %s", results[i].tail[m])
+			}
+		}
+		// the emulator's runWG / resolveBarrier loop against its model
+		if c.name == "exit" || c.name == "lds" {
+			nwf := (c.wg + 63) / 64
+			todo := make([]int, nwf)
+			for w := range todo {
+				switch c.name {
+				case "lds":
+					todo[w] = 2 * c.p1
+				case "exit":
+					early := w == 0
+					if c.p1 != 0 {
+						early = !early
+					}
+					if !early {
+						todo[w] = 1
+					}
+				}
+			}
+			ans := map[string]string{"ok": "done", "panic": "panic", "hang": "loop"}[results[i].status[0]]
+			r.Case(fmt.Sprintf("c14 emu brief=1 fix=1 todo=%s", c14IntsStr(todo)), ans)
+		}
 	}
 }
